@@ -143,6 +143,7 @@ def main(chk):
                         add(key + '/witness', pc, S.FALSE, info)
     chk.functions |= sess2.functions_called
 
+    tasks += mesh_part(chk, ir, native, z, quick)
     chk.log('discharging %d obligations' % len(tasks))
     outs = par.prove_all(z, [t[:4] for t in tasks])
     chk.queries += z.queries
@@ -154,7 +155,7 @@ def main(chk):
             else: chk.witness_failures.append('%s: expected a model, got %s' % (nm, st))
             continue
         if st == 'violated':
-            rep = replay(native, info, model, nm)
+            rep = replay_mesh(native, info, model, nm) if (info or {}).get('mesh') else replay(native, info, model, nm)
             if not rep['reproduced'] and (info or {}).get('log_node') is not None:
                 # the solver treats log as an uninterpreted function: its model may give log a value the real logarithm does not take.
                 # Look for a counterexample in which log(V/Vt') has its true value (pinned at a list of ratios)
@@ -178,6 +179,112 @@ def main(chk):
         'executed in irsym with V, V_target, K, P_max, growth rate, dt, V_min, V_div, mu, sigma symbolic (P_max and V_div also +inf). On every feasible '
         'path z3 proves the target-volume law, the capped logarithmic pressure law (same log application), eligibility <=> V >= V_div for epithelial '
         'cells and never for the other classes, removal predicate <=> V < V_min, and the 3-sigma clamp for an arbitrary drawn sample.'))
+
+FORCE_TERMS = ['cell::apply_bending_forces()', 'cell::regularize_face_angles(face const&)', 'cell::apply_pressure_on_surface()',
+               'cell::apply_surface_tension_and_membrane_elasticity()', 'cell::compute_node_curvature_and_normals()']
+MESH_CLASSES = {0: 'epithelial', 2: 'lumen', 3: 'nucleus', 4: 'static'}
+TET_FACES = [(0, 2, 1), (0, 1, 3), (0, 3, 2), (1, 2, 3)]
+
+def mesh_part(chk, ir, native, z, quick):
+    """V in the laws is the enclosed volume of the mesh as it is now: a cell is built and initialised on one tetrahedron (coordinates X0),
+    its nodes are moved to X1 (all 24 coordinates symbolic) and the real apply_internal_forces(dt) runs; the force terms it calls after the
+    pressure update are replaced by empty bodies (they are C02's subject and do not write volume, target volume or pressure)."""
+    import subprocess
+    from checks import meshes as M
+    mod = api.load_module(ir)
+    names = list(mod.funcs)
+    dem = subprocess.run(['c++filt'], input='\n'.join(names), capture_output=True, text=True).stdout.split('\n')
+    ov = {}
+    for n, d in zip(names, dem):
+        if d in FORCE_TERMS: ov[n] = (lambda it, args: None)
+    if len(ov) != len(FORCE_TERMS):
+        chk.fail_closed.append('mesh part: %d of %d force-term symbols found for the stubs' % (len(ov), len(FORCE_TERMS)))
+    chk.assumptions += ['mesh part: both tetrahedra (at construction and now) are outward oriented with positive volume; surface moduli are 0 and the force terms '
+                        'called by apply_internal_forces after the pressure update have empty bodies (stubs: %s)' % ', '.join(FORCE_TERMS)]
+    # translator validation on concrete inputs (no stubs)
+    sc = api.Session(ir, mode='ieee')
+    rng = random.Random(chk.seed + 11)
+    base = [0, 0, 0, 1, 0, 0, 0, 1, 0, 0, 0, 1]
+    for k in range(12 if quick else 40):
+        x0 = [b + rng.uniform(-0.2, 0.2) for b in base]; x1 = [1.3 * b + rng.uniform(-0.2, 0.2) for b in base]
+        din = x0 + x1 + [rng.uniform(0.1, 1), rng.uniform(1, 100), rng.uniform(1, 50), rng.uniform(-1, 1), rng.uniform(1e-3, 0.1), rng.uniform(0.01, 0.3)]
+        iin = [[0, 2, 3, 4][k % 4], (k // 4) % 2]
+        r = sc.run('h_c04_mesh', din, iin); q = native.call('h_c04_mesh', din, iin)
+        chk.validation['inputs'] += 1
+        if r.status != 'ok' or r.iout != q['i'] or not all(api.same_double(x, y) for x, y in zip(r.dout, q['d'])):
+            chk.validation['mismatches'] += 1; chk.note('validation mismatch h_c04_mesh %r: %r vs %r' % (iin, getattr(r, 'dout', None), q))
+    chk.validation['programs'] += 1
+    chk.functions |= sc.functions_called
+    X0 = [[S.var('a%d_%d' % (i, k)) for k in range(3)] for i in range(4)]
+    X1 = [[S.var('b%d_%d' % (i, k)) for k in range(3)] for i in range(4)]
+    Vt, K, Pmax, g, dt, minvol = [S.var(n) for n in ('mVt', 'mK', 'mPmax', 'mg', 'mdt', 'mminvol')]
+    six = S.const(6)
+    v0 = S.div(M.signed_volume6(X0, TET_FACES), six); v1 = S.div(M.signed_volume6(X1, TET_FACES), six)
+    pre = [S.cmp('gt', v0, S.ZERO), S.cmp('gt', v1, S.ZERO), S.cmp('gt', Vt, S.ZERO), S.cmp('gt', K, S.ZERO), S.cmp('gt', minvol, S.ZERO)]
+    sess = api.Session(ir, mode='real', overrides=ov)
+    tasks = []
+    for cls in sorted(MESH_CLASSES):
+        for pinf in (0, 1):
+            ctl, res = sess.explore('h_c04_mesh', M.flat(X0) + M.flat(X1) + [Vt, K, Pmax, g, dt, minvol], [cls, pinf], assumptions=pre, zctx=z, max_paths=64, branch_timeout_ms=5000, generic_position=True)
+            chk.absorb(session=sess, ctl=ctl)
+            if not ctl.exhausted: chk.fail_closed.append('path budget exhausted (mesh part)')
+            n_ok = 0
+            for (tr, pc, r) in res:
+                st = getattr(r, 'status', None)
+                if st != 'ok':
+                    if st != 'pathend': chk.fail_closed.append('mesh part path: %r' % (getattr(r, 'error', r),))
+                    continue
+                n_ok += 1
+                key = 'mesh/%s/Pmax=%s/%s' % (MESH_CLASSES[cls], 'inf' if pinf else 'fin', ''.join('T' if d.taken else 'F' for d in tr))
+                info = {'mesh': True, 'cls': cls, 'pinf': pinf}
+                vol, vt_out, p_out = S.R(r.dout[0]), S.R(r.dout[1]), S.R(r.dout[2])
+                below = r.iout[0]
+                bb = (S.cmp('ne', below, S.iconst(0, below.width)) if below.sort == 'I' else below) if isinstance(below, S.Node) else (S.TRUE if below else S.FALSE)
+                tasks.append((key + '/stored volume = enclosed volume of the mesh as it is now', list(pc), S.cmp('eq', vol, v1), 30000, True, info))
+                grown = S.add(Vt, S.mul(dt, g))
+                tasks.append((key + '/target-volume-law', list(pc), S.cmp('eq', vt_out, S.ite(S.cmp('lt', grown, minvol), minvol, grown)), 30000, True, info))
+                L = S.uf('log', S.div(vol, vt_out))
+                raw = S.neg(S.mul(K, L))
+                law_p = raw if pinf else S.ite(S.cmp('gt', raw, Pmax), Pmax, raw)
+                tasks.append((key + '/pressure-law on the stored volume', list(pc), S.cmp('eq', p_out, law_p), 30000, True, info))
+                tasks.append((key + '/below<=>V(now)<Vmin', list(pc), S.bnot(S.bxor(bb, S.cmp('lt', v1, minvol))), 30000, True, info))
+                tasks.append((key + '/witness', list(pc), S.FALSE, 4000, True, info))
+            if not n_ok: chk.fail_closed.append('mesh part: no completed path for class %s' % MESH_CLASSES[cls])
+    chk.functions |= sess.functions_called
+    return tasks
+
+def replay_mesh(native, info, model, nm):
+    if not model: return {'reproduced': False, 'what': 'no model'}
+    g = lambda n, d=0.0: float(Fraction(model.get(n, d)))
+    base = [0, 0, 0, 1, 0, 0, 0, 1, 0, 0, 0, 1]
+    x0 = [g('a%d_%d' % (i, k), base[3 * i + k]) for i in range(4) for k in range(3)]
+    x1 = [g('b%d_%d' % (i, k), base[3 * i + k]) for i in range(4) for k in range(3)]
+    din = x0 + x1 + [g('mVt', 1.0), g('mK', 1.0), g('mPmax', 1e9), g('mg', 0), g('mdt', 0.1), g('mminvol', 0.01)]
+    iin = [info['cls'], info['pinf']]
+    q = native.call('h_c04_mesh', din, iin)
+    if q['status'] != 0: return {'reproduced': False, 'what': 'native failed', 'din': din, 'iin': iin}
+    vol, vt, p, area = q['d']; below = q['i'][0]
+    def tetvol(x):
+        P = [x[3 * i:3 * i + 3] for i in range(4)]
+        tot = 0.0
+        for (a, b, c) in TET_FACES:
+            A, B, C = P[a], P[b], P[c]
+            tot += A[0] * (B[1] * C[2] - B[2] * C[1]) - A[1] * (B[0] * C[2] - B[2] * C[0]) + A[2] * (B[0] * C[1] - B[1] * C[0])
+        return tot / 6.0
+    v_now = tetvol(x1)
+    scale = max(abs(v_now), abs(tetvol(x0)), 1e-300)
+    probs = []
+    if abs(vol - v_now) > 1e-9 * scale + 1e-12 * max(abs(c) for c in x1 + [1.0]) ** 3:
+        probs.append('stored volume %r but the mesh now encloses %r (at construction %r)' % (vol, v_now, tetvol(x0)))
+    Vt, K, Pmax, gg, dt, mv = din[24:]
+    exp_vt = max(Vt + gg * dt, mv)
+    if abs(vt - exp_vt) > 1e-9 * max(1, abs(exp_vt)): probs.append('target volume %r, law gives %r' % (vt, exp_vt))
+    if v_now > 0 and exp_vt > 0:
+        exp_p = -K * math.log(v_now / exp_vt)
+        if not info['pinf']: exp_p = min(exp_p, Pmax)
+        if abs(p - exp_p) > 1e-6 * max(1, abs(exp_p)): probs.append('pressure %r, law on the current mesh gives %r' % (p, exp_p))
+    if abs(v_now - mv) > 1e-9 * scale and bool(below) != (v_now < mv): probs.append('below_min=%d but V(now)=%r Vmin=%r' % (below, v_now, mv))
+    return {'reproduced': bool(probs), 'what': '; '.join(probs) or 'native agrees with the law', 'din': din, 'iin': iin}
 
 def replay(native, info, model, nm):
     from fractions import Fraction
